@@ -54,10 +54,17 @@ PARTIAL = [
     "(a container may mix BSpline and NURBS shapes; in-file mixed example); json_export_import itself (the identity import(export x) = x in rational form) is TOTAL in the model: "
     "importShapes has no guard and Shapes.Ok only asks for non-zero weights, so it also covers records the real importer would refuse (degree 0, constant knot vector); "
     "it is only meant for / only fed with records exported from valid objects, the *_same_points versions carry well-formedness (EvalOk); "
-    "not covered: derivatives of the reimported shape, evaluation of freeform trims, the txt / csv formats (they carry control points only)",
+    "derivatives of the reimported shape are now theorems for curves and surfaces (C14.curve_reimport_derivatives, surface_reimport_derivatives, "
+    "smesh_export_import_derivatives, json_export_import_derivatives_curves / _surfaces; `derivatives` = span search + A3.2 / the A3.6 table, both evaluator variants, + A4.2 / A4.4 iff rational): "
+    "'up to rational form' means (a) the unit weights of a non-rational shape change no derivative (unit_weights_keep_*_derivatives) and (b) the normalised knot vectors multiply "
+    "order k (cell [k][l]) by (last - first)^k (resp. per direction) - the same vectors iff the knot vectors already were [0..1] (*_when_normalised); same hypotheses as for the points (EvalOk, closed domain); "
+    "volumes have no derivative routine in the library; the oracle checks orders 0..2 on curves and surfaces (float mode: not at knots, where the span may flip); "
+    "not covered: evaluation of freeform trims, the txt / csv formats (they carry control points only)",
     "2-D file helpers of compatibility: the repaired flip / weight / unweight helpers and the pinned flip's IndexError are now theorems for "
     "every rectangular file (C14.flip2d_repaired_all_sizes, weight2d_repaired_all_sizes, flip2d_pinned_refutes_all_nonsquare); the broken "
-    "line structure the pinned SAVER produces without a flip (weight2dFilePinned) is kernel-checked on the 2x3 instance only",
+    "line structure the pinned SAVER produces without a flip (weight2dFilePinned) is now a theorem for every rectangular file as well "
+    "(C14.weight2d_pinned_line_structure_all_sizes: all points in order, lines of size_u, size_v x (size_u - 1), size_v - size_u points resp. one single line when size_u > size_v; "
+    "weight2d_pinned_refutes_all_nonsquare); only generate_ctrlptsw2d_file has a pinned model function (generate_ctrlpts2d_weights_file uses the same saver)",
     "directory import: the theorems cover the files in enumeration order; `sorted(os.listdir())` is lexicographic, so a "
     "container of 10 or more shapes comes back as 1,10,11,2,... (the property quantifies over 1..4 shapes)",
     "the per-point length validation of the readers (`validate_and_clean`) is not in the model's reader guard",
@@ -670,6 +677,29 @@ def eval_same(spec, orig, obj, num, tol, what, seed=0, same_domain=False):
         etol = None if tol is None else (lambda x, y: 1e-10 * scale)
         if not _same_list(a, b, etol):
             return "%s: evaluates to a different point at %s" % (what, [fr(u) for u in prm])
+        # ... and to the same derivatives (curves, surfaces; orders 0..2): the reimported shape lives on the normalised
+        # knot vectors, so order k (cell [k][l]) is the exported one times (last - first)^k (resp. ^k ^l per direction) when
+        # the original kept its own knot range, and the very same vector otherwise (C14.*_reimport_derivatives)
+        # (float mode: not at a knot - after the normalisation the parameter may fall into the neighbouring span, and
+        # derivatives of order > p - multiplicity jump there; exact mode: every parameter)
+        if pd <= 2 and (tol is None or not any(u in kv for u, kv in zip(prm, spec['kv']))):
+            fac = [(kv[-1] - kv[0]) if (spec.get('raw') and not same_domain) else F(1) for kv in spec['kv']]
+            dtol = None if tol is None else (lambda x, y: 1e-9 * max(scale, abs(float(x)), abs(float(y))))
+            if pd == 1:
+                da = orig.derivatives(num(src[0]), order=2)
+                db = obj.derivatives(num(dst[0]), order=2)
+                want = [[c * num(fac[0] ** k) for c in v] for k, v in enumerate(da)]
+                if len(db) != len(want) or not all(_same_list(x, y, dtol) for x, y in zip(want, db)):
+                    return "%s: derivatives at %s are not the exported ones (times (last - first)^k)" % (what, [fr(u) for u in prm])
+            else:
+                da = orig.derivatives(num(src[0]), num(src[1]), order=2)
+                db = obj.derivatives(num(dst[0]), num(dst[1]), order=2)
+                for k in range(3):
+                    for l in range(3):
+                        want = [c * num(fac[0] ** k * fac[1] ** l) for c in da[k][l]]
+                        if not _same_list(want, db[k][l], dtol):
+                            return "%s: mixed derivative [%d][%d] at %s is not the exported one (times the knot-range factors)" % (
+                                what, k, l, [fr(u) for u in prm])
     return None
 
 
